@@ -179,6 +179,8 @@ structure St' where
   timeout : Nat := 15000
   prev : Sys := {}
   prevTags : Tags × Tags := ([], [])
+  /-- previous local views of the follower coordinators (3-node part) -/
+  followers : List (String × LState) := []
 
 def compName : Comp → String
   | .wset => "worker-set" | .status => "worker-status" | .book => "worker-bookkeeping"
@@ -225,6 +227,25 @@ def finish (st : St') (op? : Option Op) (modelAnswer : String) (implAnswer lDump
 
 def b01 (s : String) : Bool := s == "1"
 
+/-- `fview <node> <now> => ok | L <leader's view> | F <follower's view after its sync_from_raft> | R <replicated state>`:
+the follower's transition is `sync` (DIFF otherwise); wherever the leader is synchronised with the replicated
+state, the follower must show what the leader shows (`follower_view_equals_leader_partial`) -/
+def followerView (st : St') (node : String) (now : Nat) (ans ld fd rd : String) : St' × String :=
+  match parseLDump st.timeout false ld, parseLDump st.timeout false fd, parseRDump rd with
+  | some (ll, tll), some (fl, _), some (r, tr) =>
+    let prevF : LState := ((st.followers.find? (·.1 == node)).map (·.2)).getD { timeout := st.timeout }
+    let model := sync prevF r now
+    let st2 := { st with followers := (node, fl) :: st.followers.filter (·.1 != node) }
+    let differs := Comp.all.filter fun c =>
+      compSyncB c ll r && (c != .groups || tagsAgree tll tr) && !noRevertB c ll fl
+    if !differs.isEmpty then
+      (st2, s!"JUDGE C38 follower {node} shows a different {differs.map compName} than the leader although the leader is in sync with the replicated state")
+    else
+      let m := s!"ok | F {dumpL model}"
+      let i := s!"{ans} | F {dumpL fl}"
+      (st2, verdict m i)
+  | _, _, _ => (st, "BADLINE fview dump")
+
 /-- the shape of the health loop of `varpulis-cli/src/main.rs` that the harness replays and `Op.tick*` model:
 the calls in order, no `ScalingPolicySet` proposal anywhere, the start-up assignment of the policy -/
 def loopShape : String :=
@@ -241,6 +262,12 @@ def step (st : St') (line : String) : St' × String :=
     | none => (st, "")
     | some res =>
     if ws == ["loopshape"] then (st, verdict loopShape res) else
+    if ws.head? == some "fview" then
+      match ws, res.splitOn " | " with
+      | ["fview", node, now], [ans, ld, fd, rd] =>
+        followerView st node (now.toNat?.getD 0) ans (ld.drop 2).toString (fd.drop 2).toString (rd.drop 2).toString
+      | _, _ => (st, "BADLINE fview")
+    else
     match res.splitOn " | " with
     | [ans, ld, rd] =>
       let ld := (ld.drop 2).toString
